@@ -83,6 +83,26 @@ func (k *kase) guard(what string, f func()) bool {
 	}
 }
 
+// pollute marks a channel, and every channel sharing its index, as already reported on:
+// what an index holds decides how its data channels are chunked and bounded, so a residual
+// in one member of a group shows up in reads of the others.
+func (k *kase) pollute(key channel.Key) {
+	for _, gs := range k.spec.Groups {
+		member := channel.Key(gs.Index.Key) == key
+		for _, d := range gs.Data {
+			member = member || channel.Key(d.Key) == key
+		}
+		if !member {
+			continue
+		}
+		k.polluted[channel.Key(gs.Index.Key)] = true
+		for _, d := range gs.Data {
+			k.polluted[channel.Key(d.Key)] = true
+		}
+	}
+	k.polluted[key] = true
+}
+
 func (k *kase) node(n uint16) mock.Node { return k.cluster.Nodes[node.Key(n)] }
 
 func (k *kase) key(ref chanRef) channel.Key {
@@ -642,7 +662,7 @@ func (k *kase) checkEngines(ctx context.Context, ss sessionSpec, involved []node
 			}
 			k.h.Count("engine_reads_compared", 1)
 			if !sameSamples(got[key], want) {
-				k.polluted[key] = true
+				k.pollute(key)
 				cl := classify(got[key], want)
 				sig := fmt.Sprintf("c07:%s:leaseholder-engine-%s:%s", when, cl, where)
 				if cl == "replayed-frame" {
@@ -797,7 +817,7 @@ func (k *kase) runIter(ctx context.Context, it iterSpec) bool {
 				if key.Leaseholder() == node.Key(it.Gateway) {
 					where = "gateway"
 				}
-				k.polluted[key] = true
+				k.pollute(key)
 				k.violate(fmt.Sprintf("c07:iterator-differs-from-single-node:%s:%s:%s-channel", cmd.Op, classify(dg[key], rg[key]), where),
 					fmt.Sprintf("iterator through node %d (route %s), command #%d %s(%d), channel %d (leaseholder %d): %s; acks dist=%v single=%v",
 						it.Gateway, route, ci, cmd.Op, cmd.Arg, key, key.Leaseholder(), describe(dg[key], rg[key]), dOK, rOK))
@@ -867,7 +887,7 @@ func (k *kase) fullRead(ctx context.Context, it iterSpec, keys channel.Keys, bou
 			if key.Leaseholder() == node.Key(it.Gateway) {
 				where = "gateway"
 			}
-			k.polluted[key] = true
+			k.pollute(key)
 			if cl := classify(dg[key], rg[key]); strings.HasPrefix(cl, "missing") && len(keys.UniqueLeaseholders()) > 1 {
 				// Which step of the read loop ended it? (single node: SeekFirst true, Next true, Next false)
 				stage := "next"
@@ -998,6 +1018,25 @@ func (k *kase) checkUnknownKeys(ctx context.Context) {
 				k.h.Inconclusive("deleted-channel-metadata-reappeared-on-gateway")
 				fmt.Printf("NOTE: C07 case %d: node %d lists channel %d (%s) again after every node had stopped listing it\n", k.c, via, bad, nm)
 				return
+			}
+			if werr == nil && nm == "deleted" {
+				// Not listed now, but was the open decided on a transient reappearance of the
+				// deleted channel's metadata (stale gossip)? Ask again.
+				var w2 *writer.Writer
+				var werr2 error
+				if !k.guard("OpenWriter(unknown, again)", func() {
+					w2, werr2 = k.node(via).Framer.OpenWriter(ctx, writer.Config{Keys: keys, Start: telem.TimeStamp(901 * windowWidth)})
+					if werr2 == nil {
+						_ = w2.Close()
+					}
+				}) {
+					return
+				}
+				if werr2 != nil {
+					k.h.Inconclusive("deleted-channel-metadata-flickered-on-gateway")
+					fmt.Printf("NOTE: C07 case %d: OpenWriter on deleted channel %d through node %d succeeded once and failed when repeated (%v); the node did not list the channel before or after\n", k.c, bad, via, werr2)
+					return
+				}
 			}
 			if werr == nil {
 				k.violate("c07:open-writer-succeeds-on-missing-channel:"+nm+":"+mix,
